@@ -166,7 +166,7 @@ var fmtPieces = [][]string{
 }
 
 func gen(r *lib.RNG) caseT {
-	fams := []string{"adddays", "addmonths", "addyears", "datediff", "datediffdt", "datediffdt", "addsubday", "addsubday", "tsdiff", "strdate", "strdate", "format", "format", "castdate"}
+	fams := []string{"parse", "parse", "parse", "adddays", "addmonths", "addyears", "datediff", "datediffdt", "datediffdt", "addsubday", "addsubday", "tsdiff", "strdate", "strdate", "format", "format", "castdate"}
 	f := lib.Pick(r, fams)
 	y, m, d := genDate(r)
 	switch f {
@@ -195,6 +195,56 @@ func gen(r *lib.RNG) caseT {
 			}
 		}
 		return caseT{Fam: f, In: []int64{y, m, d, y2, m2, d2}}
+	case "parse":
+		// (string, format) pairs for the STR_TO_DATE parser model: formats over the modelled specifiers and literals,
+		// strings = the DATE_FORMAT rendering of a random moment, often damaged by a few edits, or random text
+		specs := []string{"%Y", "%y", "%m", "%c", "%d", "%e", "%H", "%k", "%h", "%I", "%l", "%i", "%s", "%S", "%f", "%p", "%T", "%r", "%%"}
+		lits := []string{" ", "-", "/", ":", ".", "T", "x", " ", "-", ":"}
+		var sb strings.Builder
+		if r.Chance(1, 2) {
+			for _, p := range fmtPieces {
+				c := lib.Pick(r, p)
+				if strings.ContainsAny(c, "bMDj") {
+					c = "%c"
+				}
+				sb.WriteString(c)
+			}
+		} else {
+			n := r.Range(1, 8)
+			for i := 0; i < n; i++ {
+				if r.Chance(3, 5) {
+					sb.WriteString(lib.Pick(r, specs))
+				}
+				if r.Chance(3, 5) {
+					sb.WriteString(lib.Pick(r, lits))
+				}
+			}
+		}
+		fm := sb.String()
+		switch r.Intn(30) {
+		case 0:
+			fm += "%"
+		case 1:
+			fm += lib.Pick(r, []string{"%Q", "%U", "%w", "%z"})
+		case 2:
+			fm = " " + fm + " "
+		}
+		// in[5]: number of edits, in[6]: seed of the edits; in[7] = 1: random text instead of a rendering
+		edits := int64(0)
+		if r.Bool() {
+			edits = int64(r.Range(1, 3))
+		}
+		raw := int64(0)
+		if r.Chance(1, 8) {
+			raw = 1
+		}
+		if y < 1000 {
+			y += 1000
+		}
+		if d > dim(y, m) {
+			d = dim(y, m)
+		}
+		return caseT{Fam: f, Fmt: fm, In: []int64{y, m, d, int64(r.Intn(86400)), int64(r.Intn(1000000)) * int64(r.Intn(2)), edits, int64(r.Int63()), raw}}
 	case "datediffdt":
 		// datetimes with (possibly zero) time parts, before 1970, after it and across the epoch
 		if r.Chance(2, 3) {
@@ -392,6 +442,60 @@ func run(c *lib.Ctx, e *eng.E, cs caseT) {
 		if dd.isN && (!d2.isN || d2.n != -dd.n) {
 			fail("datediff/not-antisymmetric", fmt.Sprintf("%s = %d but reversed = %d", q, dd.n, d2.n))
 		}
+	case "parse":
+		y, m, d, tod, us := in[0], in[1], in[2], in[3], in[4]
+		fm := cs.Fmt
+		rr := lib.NewRNG(uint64(in[6]))
+		txt := ""
+		if in[7] == 1 {
+			al := "0123456789 :-/.APMapm%xT"
+			n := rr.Intn(14)
+			for i := 0; i < n; i++ {
+				txt += string(al[rr.Intn(len(al))])
+			}
+		} else {
+			lit := fmt.Sprintf("%s %s.%06d", ymd(y, m, d), hms(tod), us)
+			x := r.query(fmt.Sprintf("SELECT DATE_FORMAT('%s', '%s')", lit, strings.TrimSuffix(fm, "%")))
+			txt = x.s
+			b := []byte(txt)
+			al := "0123456789 :-/.APMapm%xT"
+			for i := int64(0); i < in[5]; i++ {
+				switch rr.Intn(3) {
+				case 0:
+					if len(b) > 0 {
+						p := rr.Intn(len(b))
+						b = append(b[:p], b[p+1:]...)
+					}
+				case 1:
+					if len(b) > 0 {
+						b[rr.Intn(len(b))] = al[rr.Intn(len(al))]
+					}
+				default:
+					p := rr.Intn(len(b) + 1)
+					b = append(b[:p], append([]byte{al[rr.Intn(len(al))]}, b[p:]...)...)
+				}
+			}
+			txt = string(b)
+		}
+		q := fmt.Sprintf("SELECT STR_TO_DATE('%s', '%s')", txt, fm)
+		x := r.query(q)
+		args := []int64{int64(len(txt))}
+		for _, ch := range []byte(txt) {
+			args = append(args, int64(ch))
+		}
+		for _, ch := range []byte(fm) {
+			args = append(args, int64(ch))
+		}
+		cl := Call{Fn: 12, SQL: q, Args: args, Null: x.null, Err: x.err, Out: []int64{-1}}
+		if x.isT {
+			t := x.t
+			cl.Out = []int64{int64(t.Year()), int64(t.Month()), int64(t.Day()), (int64(t.Hour())*3600+int64(t.Minute())*60+int64(t.Second()))*1000000 + int64(t.Nanosecond()/1000)}
+		}
+		r.cs.Calls = append(r.cs.Calls, cl)
+		if strings.HasPrefix(x.err, "panic") {
+			fail("str_to_date/panic", q+": "+x.err)
+		}
+		nontrivial = x.isT
 	case "datediffdt":
 		lit := func(y, m, d, t int64) string {
 			if t < 0 {
@@ -439,6 +543,10 @@ func run(c *lib.Ctx, e *eng.E, cs caseT) {
 		moment := func(x res) []int64 {
 			t := x.t
 			return []int64{int64(t.Year()), int64(t.Month()), int64(t.Day()), (int64(t.Hour())*3600+int64(t.Minute())*60+int64(t.Second()))*1000000 + int64(t.Nanosecond()/1000)}
+		}
+		if !inRange(want) || want.Year() < 2 || want.Year() > 9998 { // stay inside the supported range
+			nontrivial = false
+			break
 		}
 		q := fmt.Sprintf("SELECT DATE_ADD(%s, INTERVAL %d %s)", arg, n, u.name)
 		a := r.query(q)
